@@ -421,6 +421,35 @@ def _judge_caller_arrays(tag):
     return out
 
 
+def _judge_delay_standalone(tag):
+    """a STAND-ALONE Delay node (delay 0, 1, 3, 4) driven through Node.run: the whole run, several cuttings into consecutive runs (length-1 pieces included) and
+    single-step calls give the same outputs, the same final state and the same continuation"""
+    import reservoirpy as rpy
+    rpy.verbosity(0)
+    from reservoirpy.nodes import Delay
+    rs = np.random.RandomState(17)
+    X = rs.randint(-8, 9, (9, 2)) / 4.0
+    Xc = rs.randint(-8, 9, (3, 2)) / 4.0
+    for d in (0, 1, 3, 4):
+        sc = {"kind": "delay-standalone", "delay": d, "tag": tag}
+        try:
+            ref = Delay(delay=d, name="ds%s_%d_w" % (tag, d))
+            whole = ref.run(X); cont = ref.run(Xc)
+            for cuts in ([4], [1, 2], [3, 6], [1, 2, 3, 4, 5, 6, 7, 8]):
+                n = Delay(delay=d, name="ds%s_%d_%s" % (tag, d, "_".join(map(str, cuts))))
+                parts, prev = [], 0
+                for c in cuts + [len(X)]:
+                    parts.append(np.asarray(n.run(X[prev:c])).reshape(c - prev, -1)); prev = c
+                got = np.vstack(parts)
+                got_c = n.run(Xc)
+                if not (np.array_equal(got, whole) and np.array_equal(np.asarray(got_c), np.asarray(cont)) and np.array_equal(n.state(), ref.state())):
+                    return {"key": "chunking:delay-standalone", "what": "stand-alone Delay(delay=%d) run in consecutive pieces cut at %s differs from one run over the whole sequence "
+                            "(outputs, final state or continuation)" % (d, cuts), "scenario": sc, "expected": whole.tolist(), "observed": got.tolist()}
+        except Exception as e:  # noqa: BLE001
+            return {"key": "delay-standalone:exception", "what": "stand-alone Delay(delay=%d) chunked runs raise %r" % (d, e), "scenario": sc, "expected": None, "observed": None}
+    return None
+
+
 def oracle(ctx, scale=1):
     rng = ctx.rng("oracle")
     n = ctx.n(60, 600) * scale
@@ -434,6 +463,9 @@ def oracle(ctx, scale=1):
         out += _judge_special(rng, "%d_%d" % (ctx.seed, i))
     out += _judge_dtype(rng, "%d" % ctx.seed)
     out += _judge_caller_arrays("%d" % ctx.seed)
+    v = _judge_delay_standalone("%d" % ctx.seed)
+    if v:
+        out.append(v)
     nl = ctx.n(3, 20)
     lrng = ctx.rng("oracle-list-sender")
     for i in range(nl):
@@ -451,7 +483,9 @@ def replay(payload):
     if mt:                                     # a disagreeing Model.train history stored by the correspondence
         return trainmodel.replay(mt[0])
     sc = payload["scenario"]
-    if sc.get("kind") == "caller-arrays":
+    if sc.get("kind") == "delay-standalone":
+        v = _judge_delay_standalone("rp")
+    elif sc.get("kind") == "caller-arrays":
         v = [w for w in _judge_caller_arrays("rp") if w["key"] == payload.get("key", w["key"])]
     elif sc.get("kind") == "dtype":
         v = _judge_dtype(core.random.Random(0), "rp")
